@@ -39,8 +39,31 @@ func (h *hasher) add(v int64) {
 	*h = hasher(x)
 }
 
+// warm wraps an earlier paragraph on the wrapper (results ignored; a panic or a non-terminating
+// wrap of that paragraph is its own case's business, not this one's).
+func warm(lw *shaping.LineWrapper, prev *Case) {
+	defer func() { recover() }()
+	pc := *prev
+	pc.Prev = nil
+	pb, err := build(&pc)
+	if err != nil {
+		return
+	}
+	if len(pc.Widths) == 0 {
+		pc.Widths = []int{40}
+	}
+	res := runIterative(pb, &pc, lw)
+	if pc.Paragraph && res.panicked == nil && res.nonterm == "" {
+		runParagraph(pb, &pc, lw)
+	}
+}
+
 func (c *Case) hash() uint64 {
 	h := newHasher()
+	if c.Prev != nil {
+		h.add(int64(c.Prev.hash()))
+		h.add(-9)
+	}
 	b2i := func(b bool) int64 {
 		if b {
 			return 1
@@ -107,6 +130,9 @@ func (o *outcome) label(l string) { o.labels = append(o.labels, l) }
 // through WrapParagraph, and applies the predicates of the property being run to each result.
 func evaluate(t ev.TB, c *Case, b *built, m *model) (out outcome) {
 	var lw shaping.LineWrapper
+	if c.Prev != nil {
+		warm(&lw, c.Prev)
+	}
 	fail := func(v *violation, res *result) {
 		cc := *c
 		cc.Shaped = dumpRuns(b.runs, b.faceNames)
@@ -225,6 +251,9 @@ func classify(c *Case, m *model, out *outcome) {
 		}
 	}
 	out.label("iterator_" + c.Iter)
+	if c.Prev != nil {
+		out.label("wrapper_reused_after_another_paragraph")
+	}
 	out.label("policy_" + m.policy().String())
 	if c.Cfg.Lines > 0 {
 		out.label("truncation_active")
@@ -343,6 +372,7 @@ func TestPropSynthetic(t *testing.T) {
 			t.Fatalf("generator violated a precondition: %s", bad)
 		}
 		genWidths(t, c, m)
+		genPrev(t, c)
 		ev.Journal("C02/termination", c) // names the culprit should the process hang or die
 		out := evaluate(t, c, b, m)
 		ev.JournalDone()
@@ -372,6 +402,7 @@ func TestPropPipeline(t *testing.T) {
 			return
 		}
 		genWidths(t, c, m)
+		genPrev(t, c)
 		ev.Journal("C02/termination", c)
 		out := evaluate(t, c, b, m)
 		ev.JournalDone()
